@@ -363,9 +363,15 @@ def header_frame(rnd, allow_refuse=True, mask=None, continuation=False):
     if unused:
         flags |= 0x0002
     if continuation:
+        # 1..4 further flag words (no properties are defined for them)
         w.put(struct.pack('>H', flags | 1), 'flag-word')
-        w.put(struct.pack('>H', rnd.choice([0, 0, 0x8000, 0x0002])),
-              'flag-word')
+        extra = rnd.choice([1, 1, 2, 3, 4]) if continuation is True \
+            else int(continuation)
+        for k in range(extra):
+            word = rnd.choice([0, 0, 0x8000, 0x0002, 0xFFFE]) & 0xFFFE
+            if k < extra - 1:
+                word |= 1
+            w.put(struct.pack('>H', word), 'flag-word')
     else:
         w.put(struct.pack('>H', flags), 'flag-word')
     exp = dict(refspec.PROPERTY_DEFAULTS)
@@ -391,6 +397,10 @@ def body_frame(rnd, n=None):
     raw = bytearray(rnd.randbytes(n))
     if rnd.random() < 0.3:
         raw[rnd.randrange(n)] = 0xCE
+    if rnd.random() < 0.15:
+        raw[-1] = 0xCE                      # payload ends in the end octet
+        if n > 1 and rnd.random() < 0.5:
+            raw[-2] = 0xCE
     if n >= 8 and rnd.random() < 0.2:
         raw[:8] = b'AMQP\x00\x00\x09\x01'
     w.put(bytes(raw))
